@@ -294,8 +294,10 @@ class Gen:
         if kind == ARR:
             c = r.random()
             if c < 0.3:
+                # the evaluation order of function arguments is private to each function: only the
+                # first argument may carry side effects / control flow
                 a, _ = self.expr(ARR, False, d)
-                b, _ = self.expr(INT, False, d)
+                b = self.atom(INT)
                 return ["call", "push", [[None, a], [None, b]], False, None]
             if c < 0.6:
                 n = r.randint(0, 3)
@@ -312,7 +314,7 @@ class Gen:
                 return ["obj", [[k, self.expr(r.choice([INT, STR, BOOL]), False, d)[0]] for k in keys]]
             if c < 0.7:
                 a, _ = self.expr(OBJ, False, d)
-                b, _ = self.expr(OBJ, False, d)
+                b = self.atom(OBJ)
                 return ["call", "merge", [[None, a], [None, b]], False, None]
             return self.atom(OBJ)
         raise ValueError(kind)
@@ -517,6 +519,8 @@ class Gen:
             return [["assign", ["tpath", prefix, segs], e]]
         if c < 0.40:
             p2, s2 = self.ext_path()
+            if self.p(0.25):
+                s2 = []            # bare root query: `.` / `%`
             name = self.fresh_var()
             self.vars[name] = "any"
             return [["assign", ["tvar", name, []], ["path", p2, s2]]]
@@ -655,6 +659,9 @@ class Gen:
         params = []
         saved = dict(self.vars)
         for i in range(nparams):
+            if fn in ("for_each", "filter") and self.p(0.2):
+                params.append("_")      # ignored parameter: has no runtime identifier
+                continue
             if self.vars and self.p(self.o.shadow_params):
                 name = r.choice(list(self.vars))
                 if name in params:
@@ -668,8 +675,10 @@ class Gen:
             params.append(name)
         # parameter kinds as the closure sees them
         if fn in ("for_each", "filter"):
-            self.vars[params[0]] = STR if over_obj else INT
-            self.vars[params[1]] = "any"
+            if params[0] != "_":
+                self.vars[params[0]] = STR if over_obj else INT
+            if params[1] != "_":
+                self.vars[params[1]] = "any"
         elif fn == "map_values":
             self.vars[params[0]] = "any"
         else:
